@@ -95,7 +95,7 @@ class TempProject:
         o = self.opts
         hooks = {}
         for which in ("pre", "post"):
-            if which in self.hooks:
+            if which in self.hooks and not getattr(self, "hooks_via_cli", False):
                 hooks[which] = "%s_hook.sh" % which
         if self.fmt.endswith(".toml"):
             sec = "tool.bumpver" if self.fmt == "pyproject.toml" else "bumpver"
